@@ -108,6 +108,22 @@ func encodedLen(e *evaluator, v ssa.Value) *term {
 		if x.Low == nil && x.High != nil {
 			return e.eval(x.High)
 		}
+	case *ssa.Phi:
+		// only edges from blocks that are live once constant comparisons (size == 4 on a 64-bit
+		// platform) are folded
+		live := liveBlocks(x.Parent())
+		var t *term
+		for i, ed := range x.Edges {
+			if !live[x.Block().Preds[i]] {
+				continue
+			}
+			l := encodedLen(e, ed)
+			if l == nil || (t != nil && t.String() != l.String()) {
+				return nil
+			}
+			t = l
+		}
+		return t
 	case *ssa.Call:
 		// binary.LittleEndian.AppendUintN(base, v)
 		if f := calleeOf(x); f != nil && strings.HasPrefix(funcID(f), "(encoding/binary.littleEndian).AppendUint") && len(x.Call.Args) == 3 {
@@ -120,6 +136,14 @@ func encodedLen(e *evaluator, v ssa.Value) *term {
 		if bi, ok := x.Call.Value.(*ssa.Builtin); ok && bi.Name() == "append" && len(x.Call.Args) == 2 {
 			base := encodedLen(e, x.Call.Args[0])
 			if base != nil {
+				// append(b, x, y): the variadic arguments are a slice of a local array of known length
+				if sl, ok := x.Call.Args[1].(*ssa.Slice); ok && sl.Low == nil && sl.High == nil {
+					if al, ok := sl.X.(*ssa.Alloc); ok {
+						if at, ok := al.Type().(*types.Pointer).Elem().Underlying().(*types.Array); ok {
+							return O("add", base, K(at.Len()))
+						}
+					}
+				}
 				return O("add", base, ON("len", "", S(e.pathOrTerm(stripBytesConv(x.Call.Args[1])))))
 			}
 		}
@@ -128,7 +152,7 @@ func encodedLen(e *evaluator, v ssa.Value) *term {
 }
 
 func checkC15(p *Program, r *Report) {
-	r.Explanation = "Decided for every value: (sizes) per encoder type the size reports normalise to the same term — len(Encode(v)), the count Decode reports, GetSize and GetEncodedSize: the constant Sizeof(T) for the fixed integers, UintSize/8 for Int, 2+len / 2+(256*b[0]+b[1]) for String16 with the header written as (len>>8, len), Size for Bytes/TypeEncoder, 0 for Dummy; (bijection, a complete proof for I8..U64 given encoding/binary) between the type assertion d.(T) and binary.LittleEndian.PutUintN, and between UintN and the boxed result, every conversion is between integer types of equal width N = 8*Sizeof(T), the buffer has N/8 bytes, Put and Get use the same N and the byte-order object is LittleEndian — so Decode(Encode(v)) = v and the layout is fixed-width little-endian two's complement; (TypeEncoder) Encode/Decode go only through encoding/binary with the configured order and type, guarded by the type check."
+	r.Explanation = "Decided for every value: (sizes) per encoder type the size reports normalise to the same term — len(Encode(v)), the count Decode reports, GetSize and GetEncodedSize: the constant Sizeof(T) for the fixed integers, UintSize/8 for Int, 2+len / 2+(256*b[0]+b[1]) for String16 with the header written as (len>>8, len), Size for Bytes/TypeEncoder, 0 for Dummy; (bijection, a complete proof for I8..U64 given encoding/binary) between the type assertion d.(T) and binary.LittleEndian.PutUintN, and between UintN and the boxed result, every conversion is between integer types of equal width N = 8*Sizeof(T), the buffer has N/8 bytes, Put and Get use the same N and the byte-order object is LittleEndian — so Decode(Encode(v)) = v and the layout is fixed-width little-endian two's complement; (TypeEncoder) Encode/Decode go only through encoding/binary with the configured order and type, guarded by the type check; every constructor returns a fresh encoder (its own allocation or a delegate constructor's) with the requested order; no (reflect.Type).Size() — in-memory size with padding — reaches the Size field for a kind that can have padding (kinds possible at the call computed from the Kind() tests on the way); (total) no codec has an explicit panic under conditions, all constant comparisons of the value or its length, that a value of its domain satisfies (String16: 0..65535 bytes)."
 	r.NotCovered = "TypeEncoder field-by-field layout (encoding/binary's), String16 beyond 65535 bytes (outside its domain), Dummy (lossy by design)."
 	r.Trusted = []string{"go/ssa, go/types", "encoding/binary PutUintN/UintN/Read/Write"}
 	encs := encoderTypes(p)
@@ -405,7 +429,7 @@ func nativeIntBijection(p *Program, enc, dec *ssa.Function) string {
 	hasPut, hasGet := false, false
 	why := ""
 	for _, c := range callsIn(enc) {
-		if call, ok := c.(*ssa.Call); ok && isLittleEndianCall(call, "PutUint"+n) {
+		if call, ok := c.(*ssa.Call); ok && (isLittleEndianCall(call, "PutUint"+n) || isLittleEndianCall(call, "AppendUint"+n)) {
 			hasPut = true
 			if _, ok, y := convChain(call.Call.Args[2]); !ok {
 				why = "Encode: " + y
@@ -933,4 +957,58 @@ func checkEncoderTotal(p *Program, r *Report, name string, boxed types.Type, enc
 	}
 	_ = dec
 	_ = ges
+}
+
+// liveBlocks: blocks reachable from the entry when branches on comparisons of
+// two constants are followed on the side the comparison takes.
+func liveBlocks(f *ssa.Function) map[*ssa.BasicBlock]bool {
+	live := map[*ssa.BasicBlock]bool{}
+	var walk func(b *ssa.BasicBlock)
+	walk = func(b *ssa.BasicBlock) {
+		if live[b] {
+			return
+		}
+		live[b] = true
+		if iff, ok := lastInstr(b).(*ssa.If); ok {
+			if bo, ok := iff.Cond.(*ssa.BinOp); ok {
+				x, okx := constInt(bo.X)
+				y, oky := constInt(bo.Y)
+				if okx && oky {
+					var v, known bool
+					known = true
+					switch bo.Op {
+					case token.EQL:
+						v = x == y
+					case token.NEQ:
+						v = x != y
+					case token.LSS:
+						v = x < y
+					case token.LEQ:
+						v = x <= y
+					case token.GTR:
+						v = x > y
+					case token.GEQ:
+						v = x >= y
+					default:
+						known = false
+					}
+					if known {
+						if v {
+							walk(b.Succs[0])
+						} else {
+							walk(b.Succs[1])
+						}
+						return
+					}
+				}
+			}
+		}
+		for _, s := range b.Succs {
+			walk(s)
+		}
+	}
+	if len(f.Blocks) > 0 {
+		walk(f.Blocks[0])
+	}
+	return live
 }
